@@ -14,12 +14,15 @@ struct Col {
 	append_only: bool,
 }
 
-const COLS: [Col; 5] = [
+const COLS: [Col; 7] = [
 	Col { btree: false, multitree: false, rc: false, append_only: false },
 	Col { btree: false, multitree: false, rc: true, append_only: false },
 	Col { btree: true, multitree: false, rc: false, append_only: false },
 	Col { btree: false, multitree: true, rc: true, append_only: false },
 	Col { btree: false, multitree: true, rc: false, append_only: true },
+	Col { btree: false, multitree: true, rc: false, append_only: false },
+	// btree-indexed column that also carries the multitree flag: takes the btree path
+	Col { btree: true, multitree: true, rc: false, append_only: false },
 ];
 
 fn options(path: &Path) -> Options {
@@ -86,7 +89,7 @@ fn expect_valid(c: &Col, op: &Op, root_exists: bool) -> bool {
 		Op::Set(..) | Op::Del(..) => !tree_col,
 		Op::Ref(..) => !tree_col && c.rc,
 		Op::InsTree(_, f) => tree_col && *f <= 255,
-		Op::RefTree(..) => tree_col,
+		Op::RefTree(..) => tree_col && (c.append_only || c.rc),
 		Op::DerefTree(..) => tree_col && !c.append_only && root_exists,
 	}
 }
@@ -110,7 +113,7 @@ fn snapshot(db: &Db, nkeys: u64) -> Vec<String> {
 	let mut out = vec![];
 	for (ci, c) in COLS.iter().enumerate() {
 		let col = ci as u8;
-		if c.multitree {
+		if c.multitree && !c.btree {
 			for i in 0..nkeys {
 				let k = key(i);
 				let r = db.get_root(col, &k);
@@ -179,30 +182,35 @@ pub fn run(seeds: &[u64], _thorough: bool, root: &Path, t: &mut Trace, ctr: &mut
 				let k = key(rng.below(nkeys));
 				// one operation per tree root and transaction: the order between a tree dereference
 				// and other operations on the same root inside ONE transaction is C10's business
-				if c.multitree && tx.iter().any(|(cc, o)| *cc as usize == ci && match o {
+				if c.multitree && !c.btree && tx.iter().any(|(cc, o)| *cc as usize == ci && match o {
 					Op::InsTree(kk, _) | Op::RefTree(kk) | Op::DerefTree(kk) => *kk == k,
 					_ => false,
 				}) {
 					continue
 				}
-				let op = if c.multitree {
+				let op = if c.multitree && !c.btree {
 					let exists = tmp_roots[ci].contains_key(&k);
 					match rng.below(3) {
 						0 if !exists => {
 							tmp_roots[ci].insert(k.clone(), 1);
 							Op::InsTree(k, rng.below(4) as usize)
 						},
-						1 if exists => Op::RefTree(k),
+						1 if exists && (c.rc || c.append_only) => Op::RefTree(k),
 						2 if exists && !c.append_only && tmp_roots[ci][&k] > 0 => {
 							// keep it simple: only dereference trees present before this transaction
-							if roots[ci].contains_key(&k) && !tx.iter().any(|(cc, o)| *cc as usize == ci && matches!(o, Op::DerefTree(kk) if *kk == k)) {
+							if roots[ci].contains_key(&k) {
 								Op::DerefTree(k)
 							} else {
-								Op::RefTree(k)
+								continue
 							}
 						},
 						_ => {
-							if exists { Op::RefTree(k) } else { tmp_roots[ci].insert(k.clone(), 1); Op::InsTree(k, 1) }
+							if exists {
+								if c.rc || c.append_only { Op::RefTree(k) } else { continue }
+							} else {
+								tmp_roots[ci].insert(k.clone(), 1);
+								Op::InsTree(k, 1)
+							}
 						},
 					}
 				} else {
@@ -224,13 +232,14 @@ pub fn run(seeds: &[u64], _thorough: bool, root: &Path, t: &mut Trace, ctr: &mut
 				let ci = rng.below(COLS.len() as u64) as usize;
 				let c = &COLS[ci];
 				let k = key(rng.below(nkeys));
-				let bad = if c.multitree {
-					match rng.below(5) {
+				let bad = if c.multitree && !c.btree {
+					match rng.below(if c.rc || c.append_only { 5 } else { 6 }) {
 						0 => Op::Set(k.clone(), val_for(&k)),
 						1 => Op::Ref(k),
 						2 => Op::InsTree(key(100 + rng.below(50)), 256 + rng.below(3) as usize),
 						3 if c.append_only => Op::DerefTree(k),
 						3 => Op::DerefTree(key(200 + rng.below(50))), // missing root
+						5 => Op::RefTree(k), // no reference counting on this column
 						_ => Op::Del(k),
 					}
 				} else {
@@ -299,7 +308,7 @@ pub fn run(seeds: &[u64], _thorough: bool, root: &Path, t: &mut Trace, ctr: &mut
 						}
 						// logical content must still be the one produced by accepted commits only
 						for (ci, c) in COLS.iter().enumerate() {
-							if c.multitree {
+							if c.multitree && !c.btree {
 								for i in 0..nkeys {
 									let k = key(i);
 									let present = db.get_root(ci as u8, &k).ok().flatten().is_some();
